@@ -188,6 +188,34 @@ func binary(c *mon.Case) {
 		}
 	}
 	check("CellUnionFromUnion", s2.CellUnionFromUnion(a, b), ma.Union(mb))
+	// round 9: other arities of the variadic union, with raw (unsorted, duplicated, overlapping) arguments
+	// and empty ones mixed in; the result is the normalized form of the union of the covered sets.
+	{
+		raw := s2.CellUnion(gen.CellMultiset(c.R, 12))
+		if c.R.Intn(2) == 0 && len(a) > 0 {
+			id := a[c.R.Intn(len(a))]
+			raw = append(raw, id)
+			if id.Level() < 30 {
+				ch := id.Children()
+				raw = append(raw, ch[3], ch[1], ch[0], ch[2], id)
+			}
+		}
+		mr := ref.FromCells(ids(raw))
+		cp := func(x s2.CellUnion) s2.CellUnion { return append(s2.CellUnion{}, x...) }
+		c.Count("union.arities", 1)
+		switch c.R.Intn(5) {
+		case 0:
+			check("CellUnionFromUnion/1", s2.CellUnionFromUnion(cp(raw)), mr)
+		case 1:
+			check("CellUnionFromUnion/1+empty", s2.CellUnionFromUnion(nil, cp(raw), s2.CellUnion{}), mr)
+		case 2:
+			check("CellUnionFromUnion/0", s2.CellUnionFromUnion(), ref.FromCells(nil))
+		case 3:
+			check("CellUnionFromUnion/3", s2.CellUnionFromUnion(a, cp(raw), b), ma.Union(mb).Union(mr))
+		default:
+			check("CellUnionFromUnion/raw+1", s2.CellUnionFromUnion(cp(raw), b), mr.Union(mb))
+		}
+	}
 	check("CellUnionFromIntersection", s2.CellUnionFromIntersection(a, b), ma.Intersect(mb))
 	check("CellUnionFromDifference", s2.CellUnionFromDifference(a, b), ma.Diff(mb))
 	if got, want := a.Contains(b), ma.ContainsSet(mb); got != want {
